@@ -50,6 +50,38 @@ Example C10_nonvacuous :
      = [(VTup [VInt 1%Z; VInt 2%Z], [{| mid := 1; mref := false |}])].
 Proof. split; vm_compute; reflexivity. Qed.
 
+(* ---- _emit bridges (harness/mkprops_emit.py): begin ---- *)
+(* Stream._emit, Stream._retain_refs and Stream._release_refs are the ones regenerated from the source under test on this
+   run: Gen/KN__refs.v and Gen/KN__emit.v are written by harness/gen_emit.py from the python AST of streamz/core.py,
+   statement by statement, in the world-level monad of Base/MiniPyW.v (an exception raised by `downstream.update` unwinds
+   the loop; the returned list of awaitables is represented by the status only).  Base/BridgeEmit.v proves that they are
+   the model's retain / release / push: `downstream.update` is the parameter call_update (log the call, evaluate the node's
+   update, run its action list with the recursive push), `self.downstreams` is read through the model's downs, and the
+   model's deliver is that call followed by the release - unless the call unwinds. *)
+From SZ Require Import Base.MiniPyW Base.BridgeEmit.
+Theorem C10_emit_matches_source :
+  forall fuel g depth n w x m,
+  push (S fuel) g depth n w x m =
+  Gen.KN__emit.gen_emit (fun w => downs g w n) (call_update_of fuel g depth n) w x m.
+Proof. exact bridge_emit. Qed.
+Print Assumptions C10_emit_matches_source.
+Theorem C10_emit_matches_source_any_callee :
+  forall emitfrom g depth n w x m,
+  (let ds := downs g w n in
+   fold_left (deliver emitfrom g depth n x m) ds (retain w m (Z.of_nat (length ds)), SOk)) =
+  Gen.KN__emit.gen_emit (fun w => downs g w n) (call_update emitfrom g depth n) w x m.
+Proof. exact bridge_emit_gen. Qed.
+Print Assumptions C10_emit_matches_source_any_callee.
+Theorem C10_retain_refs_matches_source :
+  forall w m n, Gen.KN__refs.gen_retain_refs w m n = retain w m n.
+Proof. exact bridge_retain_refs. Qed.
+Print Assumptions C10_retain_refs_matches_source.
+Theorem C10_release_refs_matches_source :
+  forall w m n, Gen.KN__refs.gen_release_refs w m n = release w m n.
+Proof. exact bridge_release_refs. Qed.
+Print Assumptions C10_release_refs_matches_source.
+(* ---- _emit bridges (harness/mkprops_emit.py): end ---- *)
+
 (* ---- node bridges (harness/mkprops_nodes.py): begin ---- *)
 (* The update methods of the node classes are the ones regenerated from the source under test on this run:
    Gen/KN_<class>.v is written by harness/gen_nodes.py from the python AST of streamz/core.py, statement by statement,
